@@ -30,17 +30,14 @@
 package main
 
 import (
-	"bufio"
 	"bytes"
 	"context"
 	"encoding/xml"
 	"errors"
-	"flag"
 	"fmt"
 	"io"
 	"mime"
 	"net/http"
-	"net/http/httptest"
 	"net/url"
 	"os"
 	"path"
@@ -55,7 +52,6 @@ import (
 	webdav "github.com/emersion/go-webdav"
 	"github.com/emersion/go-webdav/verifhook"
 
-	"verifharness/davx"
 	"verifharness/hx"
 )
 
@@ -116,6 +112,62 @@ func parseErr(x hx.Sx) error {
 type memFS struct {
 	seek   bool
 	script []hx.Sx
+	// the FileInfo values of the script, parsed once and handed out again on every
+	// call (as a backend holding its data in memory would): whoever modifies what the
+	// backend returned is found by verify
+	mu    sync.Mutex
+	cache map[int][]webdav.FileInfo
+}
+
+func (m *memFS) infos(i int, items []hx.Sx) []webdav.FileInfo {
+	m.mu.Lock()
+	defer m.mu.Unlock()
+	if m.cache == nil {
+		m.cache = map[int][]webdav.FileInfo{}
+	}
+	if l, ok := m.cache[i]; ok {
+		return l
+	}
+	l := make([]webdav.FileInfo, 0, len(items))
+	for _, f := range items {
+		l = append(l, parseFi(f))
+	}
+	m.cache[i] = l
+	return l
+}
+
+// verify reports whether the data handed out is still what the script says.
+func (m *memFS) verify() bool {
+	m.mu.Lock()
+	defer m.mu.Unlock()
+	for i, l := range m.cache {
+		e := m.script[i].Args()
+		var items []hx.Sx
+		if m.script[i].Head() == "stat" {
+			items = e[1].Args()
+		} else {
+			items = e[2].Args()
+		}
+		if len(items) != len(l) {
+			return false
+		}
+		for k := range l {
+			want := parseFi(items[k])
+			if fiSx(&want) != fiSx(&l[k]) {
+				return false
+			}
+		}
+	}
+	return true
+}
+
+func (m *memFS) findIdx(head string, match func(a []hx.Sx) bool) int {
+	for i, e := range m.script {
+		if e.Head() == head && match(e.Args()) {
+			return i
+		}
+	}
+	return -1
 }
 
 func (m *memFS) find(head string, match func(a []hx.Sx) bool) []hx.Sx {
@@ -149,30 +201,27 @@ func (m *memFS) Open(ctx context.Context, name string) (io.ReadCloser, error) {
 }
 
 func (m *memFS) Stat(ctx context.Context, name string) (*webdav.FileInfo, error) {
-	a := m.find("stat", func(a []hx.Sx) bool { return a[0].Str() == name })
-	if a == nil {
+	i := m.findIdx("stat", func(a []hx.Sx) bool { return a[0].Str() == name })
+	if i < 0 {
 		return nil, errNotFound
 	}
+	a := m.script[i].Args()
 	if a[1].Head() == "err" {
 		return nil, parseErr(a[1])
 	}
-	fi := parseFi(a[1].Args()[0])
-	return &fi, nil
+	return &m.infos(i, a[1].Args())[0], nil
 }
 
 func (m *memFS) ReadDir(ctx context.Context, name string, recursive bool) ([]webdav.FileInfo, error) {
-	a := m.find("readdir", func(a []hx.Sx) bool { return a[0].Str() == name && a[1].Bool() == recursive })
-	if a == nil {
+	i := m.findIdx("readdir", func(a []hx.Sx) bool { return a[0].Str() == name && a[1].Bool() == recursive })
+	if i < 0 {
 		return nil, errNotFound
 	}
+	a := m.script[i].Args()
 	if a[2].Head() == "err" {
 		return nil, parseErr(a[2])
 	}
-	var l []webdav.FileInfo
-	for _, f := range a[2].Args() {
-		l = append(l, parseFi(f))
-	}
-	return l, nil
+	return m.infos(i, a[2].Args()), nil
 }
 
 func (m *memFS) simple(head string) (bool, error) {
@@ -354,28 +403,6 @@ func (r *recFS) Move(ctx context.Context, name, dest string, o *webdav.MoveOptio
 
 // ---------------------------------------------------------------- transports
 
-// inproc serialises the client's request with net/http, parses it again as a
-// server would, and hands it to the handler: everything of net/http and net/url
-// that lies between webdav.Client and webdav.Handler except the socket.
-type inproc struct{ h http.Handler }
-
-func (t inproc) Do(req *http.Request) (*http.Response, error) {
-	var buf bytes.Buffer
-	if err := req.Write(&buf); err != nil {
-		return nil, err
-	}
-	sreq, err := http.ReadRequest(bufio.NewReader(&buf))
-	if err != nil {
-		return nil, err
-	}
-	sreq = sreq.WithContext(req.Context())
-	rec := httptest.NewRecorder()
-	t.h.ServeHTTP(rec, sreq)
-	resp := rec.Result()
-	resp.Request = req
-	return resp, nil
-}
-
 // ---------------------------------------------------------------- codec tables
 
 type tables struct {
@@ -503,22 +530,6 @@ func (t *tables) Sx() string {
 
 // ---------------------------------------------------------------- running one case
 
-type caseIn struct {
-	transport string // i (in-process) | t (TCP, httptest.Server)
-	endpoint  string
-	backend   hx.Sx
-	op        hx.Sx
-}
-
-func (c caseIn) Sx() string {
-	return hx.L("in", c.transport, hx.S(c.endpoint), c.backend.String(), c.op.String())
-}
-
-func parseIn(x hx.Sx) caseIn {
-	a := x.Args()
-	return caseIn{transport: a[0].Atom, endpoint: a[1].Str(), backend: a[2], op: a[3]}
-}
-
 func outcomeErr(err error) string {
 	var he *verifhook.HTTPError
 	if errors.As(err, &he) {
@@ -546,226 +557,11 @@ func dmetaOf(root string) string {
 	return hx.L(items...)
 }
 
-func runCase(c caseIn, dir string) (line string) {
-	in := c.Sx()
-	defer func() {
-		if p := recover(); p != nil {
-			line = in + " (drv) (obs (calls) (panic))"
-		}
-	}()
-	var inner webdav.FileSystem
-	treeSx, dmetaSx := "-", "(dmeta)"
-	local := false
-	switch c.backend.Head() {
-	case "mem":
-		a := c.backend.Args()
-		inner = &memFS{seek: a[0].Bool(), script: a[1:]}
-	case "local":
-		local = true
-		os.RemoveAll(dir)
-		tree := davx.ParseNode(c.backend.Args()[0])
-		if err := davx.Materialize(dir, tree); err != nil {
-			fmt.Fprintln(os.Stderr, "c05: materialize:", err)
-			os.Exit(2)
-		}
-		treeSx = davx.Snapshot(dir).Sx()
-		dmetaSx = dmetaOf(dir)
-		inner = webdav.LocalFileSystem(dir)
-	case "foreign":
-		// no FileSystem at all: the answer is scripted
-	default:
-		panic("bad backend")
-	}
-	rec := &recFS{inner: inner}
-	if c.op.Head() == "create" {
-		for _, ch := range c.op.Args()[1].List {
-			if ch.IsList {
-				rec.pattern = true
-			}
-		}
-	}
-	var handler http.Handler = &webdav.Handler{FileSystem: rec}
-	if c.backend.Head() == "foreign" {
-		handler = foreignHandler(c.backend)
-	}
-
-	var hc webdav.HTTPClient
-	endpoint := c.endpoint
-	if c.transport == "t" {
-		srv := httptest.NewServer(handler)
-		defer srv.Close()
-		// keep the endpoint's path, talk to the test server
-		u, _ := url.Parse(endpoint)
-		su, _ := url.Parse(srv.URL)
-		u.Scheme, u.Host = su.Scheme, su.Host
-		endpoint = u.String()
-		hc = srv.Client()
-	} else {
-		hc = inproc{handler}
-	}
-	epPath := "?"
-	if u, err := url.Parse(endpoint); err == nil {
-		epPath = u.Path
-	}
-	cl, err := webdav.NewClient(hc, endpoint)
-	if err != nil {
-		return in + " (drv) (obs (calls) (err 0))"
-	}
-
-	ctx := context.Background()
-	a := c.op.Args()
-	out := ""
-	switch c.op.Head() {
-	case "stat":
-		fi, err := cl.Stat(ctx, a[0].Str())
-		if err != nil {
-			out = outcomeErr(err)
-		} else {
-			out = hx.L("info", fiSx(fi))
-		}
-	case "readdir":
-		l, err := cl.ReadDir(ctx, a[0].Str(), a[1].Bool())
-		if err != nil {
-			out = outcomeErr(err)
-		} else {
-			items := []string{"list"}
-			for i := range l {
-				items = append(items, fiSx(&l[i]))
-			}
-			out = hx.L(items...)
-		}
-	case "open":
-		rc, err := cl.Open(ctx, a[0].Str())
-		if err != nil {
-			out = outcomeErr(err)
-		} else {
-			b, rerr := io.ReadAll(rc)
-			rc.Close()
-			if rerr != nil {
-				out = "(err 0)"
-			} else {
-				out = hx.L("bytes", hx.S(string(b)))
-			}
-		}
-	case "create":
-		wc, err := cl.Create(ctx, a[0].Str())
-		if err != nil {
-			out = outcomeErr(err)
-		} else {
-			var werr error
-			for _, ch := range a[1].List {
-				if _, werr = wc.Write(chunkBytes(ch)); werr != nil {
-					break
-				}
-			}
-			cerr := wc.Close()
-			if cerr != nil {
-				out = outcomeErr(cerr)
-			} else if werr != nil {
-				out = "(err 0)"
-			} else {
-				out = "(done)"
-			}
-		}
-	case "rm":
-		out = doneOr(cl.RemoveAll(ctx, a[0].Str()))
-	case "mkdir":
-		out = doneOr(cl.Mkdir(ctx, a[0].Str()))
-	case "copy":
-		out = doneOr(cl.Copy(ctx, a[0].Str(), a[1].Str(), &webdav.CopyOptions{NoRecursive: a[2].Bool(), NoOverwrite: a[3].Bool()}))
-	case "move":
-		out = doneOr(cl.Move(ctx, a[0].Str(), a[1].Str(), &webdav.MoveOptions{NoOverwrite: a[2].Bool()}))
-	default:
-		panic("bad op")
-	}
-
-	tb := newTables()
-	if c.backend.Head() == "foreign" {
-		tb.addForeign(c.backend)
-	}
-	for i := range rec.infos {
-		tb.addInfo(&rec.infos[i], local)
-	}
-	drv := hx.L("drv", hx.L("ep", hx.S(epPath)), hx.L(append([]string{"answers"}, rec.answers...)...), tb.Sx(),
-		hx.L("tree", treeSx), dmetaSx)
-	// what a successful Create left on disk (local backend)
-	stored := "-"
-	if local && c.op.Head() == "create" && out == "(done)" {
-		if hp, err := webdav.VerifLocalPath(webdav.LocalFileSystem(dir), rec.lastCreate); err == nil {
-			if b, err := os.ReadFile(hp); err == nil {
-				stored = bytesSx(b, rec.pattern)
-			} else {
-				stored = hx.S("UNREADABLE: " + err.Error())
-			}
-		}
-	}
-	obs := hx.L("obs", hx.L(append([]string{"calls"}, rec.calls...)...), out, hx.L("stored", stored))
-	return in + " " + drv + " " + obs
-}
-
 func doneOr(err error) string {
 	if err != nil {
 		return outcomeErr(err)
 	}
 	return "(done)"
-}
-
-// ---------------------------------------------------------------- main
-
-func main() {
-	out := flag.String("out", "", "output file")
-	replay := flag.String("replay", "", "file of case lines to re-run (inputs are re-executed)")
-	flag.Parse()
-	sink := hx.NewSink(*out)
-	defer sink.Close()
-
-	scratch := os.Getenv("VERIF_SCRATCH")
-	if scratch == "" {
-		scratch = filepath.Join("/dev/shm", fmt.Sprintf("verif.%d", os.Getpid()))
-		defer os.RemoveAll(scratch)
-	}
-	base := filepath.Join(scratch, "c05")
-	os.MkdirAll(base, 0755)
-	defer os.RemoveAll(base)
-
-	if *replay != "" {
-		for _, l := range hx.ReadLines(*replay) {
-			items := hx.MustParse(l)
-			sink.Put(runCase(parseIn(items[0]), filepath.Join(base, "replay", "root")))
-		}
-		return
-	}
-
-	cases := make(chan caseIn, 256)
-	var wg sync.WaitGroup
-	workers := 6
-	for w := 0; w < workers; w++ {
-		wg.Add(1)
-		go func(w int) {
-			defer wg.Done()
-			os.MkdirAll(filepath.Join(base, fmt.Sprintf("w%d", w)), 0755)
-			dir := filepath.Join(base, fmt.Sprintf("w%d", w), "root")
-			for c := range cases {
-				sink.Put(runCase(c, dir))
-				if _, err := os.Stat(filepath.Dir(dir)); err != nil {
-					fmt.Fprintln(os.Stderr, "c05: the worker directory vanished after", pretty(c.Sx()))
-					os.Exit(2)
-				}
-			}
-		}(w)
-	}
-	func() {
-		defer func() {
-			if p := recover(); p != nil {
-				fmt.Fprintln(os.Stderr, "c05: generator panicked:", p)
-				os.Exit(2)
-			}
-		}()
-		generate(cases)
-	}()
-	close(cases)
-	wg.Wait()
-	fmt.Fprintf(os.Stderr, "c05: %d cases\n", sink.N)
 }
 
 // pretty decodes hex atoms for a human reader.
